@@ -310,7 +310,21 @@ def oracle(case, sr, hist):
             _, _, fid, ackno, pid, pt = r['line'].split()
             ackno, pid = int(ackno), int(pid)
             sample = r['now'] - tcpsim_unbits(pt)
-            if ackno == b['lack']:
+            if ackno < b['lack']:
+                # An ACK below the acknowledged mark was overtaken on the return path by a later cumulative ACK: it is neither a
+                # "new ACK" nor a "duplicate ACK" of the window law, so none of its rules applies - the window, the duplicate
+                # count, the RTT estimator / RTO (no sample is taken from it) and "the last acknowledged byte" of the send guard
+                # stay as they are and nothing is (re)transmitted.  It does not interrupt a run of duplicates either (the
+                # oracle's own count `ndup` is left alone).
+                hist['oracle-overtaken-ack-ignored'] += 1
+                same = all(close(a[k], b[k]) for k in ('cwnd', 'ssthresh', 'rto', 'srtt', 'dev')) and a['dup'] == b['dup'] \
+                    and a['lack'] == b['lack'] and a['nseq'] == b['nseq']
+                if not same or r['tx']:
+                    bad(f'ACK {ackno} below the acknowledged mark {b["lack"]} (overtaken by a later cumulative ACK) is neither a new nor a '
+                        f'duplicate ACK, but it changed the sender: last_ack {b["lack"]} -> {a["lack"]}, cwnd {b["cwnd"]} -> {a["cwnd"]}, '
+                        f'dupack {b["dup"]} -> {a["dup"]}, rto {b["rto"]} -> {a["rto"]}, transmitted {[q for q, sz, t in r["tx"]]}',
+                        'overtaken-ack-changed-sender', r)
+            elif ackno == b['lack']:
                 ndup += 1
                 n = ndup
                 if expired and n > 3:
